@@ -65,7 +65,7 @@ NOT_APPLICABLE = {
 }
 
 # properties that will be claimed but whose check is not built yet
-PENDING = {k: "claimed in DESIGN.md; its check is not built yet in this commit" for k in ("C02 C03 C04 C05 C06 C07 C08 C09 C10 C11 C12 C13 C14 C15 C16").split()}
+PENDING = {k: "claimed in DESIGN.md; its check is not built yet in this commit" for k in ("C04 C05 C06 C07 C08 C09 C10 C11 C12 C13 C14 C16").split()}
 
 PROPS = {}
 
@@ -99,3 +99,53 @@ _p('C19', 'exploration',
               'every MRO re-queried after every operation and adapted through a real registry; sampled evidence, not proof',
    technique='deterministic simulation: seeded declaration histories + gc faults, super proxies vs DeclModel over the MRO remainder',
    design_ref='DESIGN.md 3/C19', expected_probes=['super-query'])
+
+GRAPH_CFG = [(C, 6), (PY, 4), (C_H1, 1), (PY_H7, 1)]
+
+_p('C02', 'exploration',
+   [Part('graph', {'props': ['C02']}, configs=GRAPH_CFG, quick=36000, thorough=1200000, name='graph/C02'),
+    Part('graph', {'props': ['C02'], 'ifaces_only': True}, configs=[(C, 1), (PY, 1)], quick=6000, thorough=200000,
+         name='graph/C02/ifaces')],
+   rule='one case = one seeded rebasing history (3-18 ops: __bases__ assignment at interfaces, class specifications, instance '
+        'declarations and plain declarations; creation of new dependents; gc / drop-dependent / permute-notification-order faults) '
+        'with all ordered pairs (S, T) checked against reachability over the model bases after every op and against a freshly '
+        'built isomorphic graph at probe points; distinct_nontrivial = distinct (node kind, #bases, |reachable set|, kinds reached) states',
+   assumptions=['cyclic __bases__ assignments are never generated (unbounded recursion, outside the statement)',
+                'initial bases of class / instance declarations are read from the real objects (their construction is C01)',
+                REAL_STUB],
+   level_text='seeded search over rebasing histories with scheduled gc / drop / permute faults on the weak change-propagation '
+              'edges; every specification is compared with graph reachability over the current bases after every step, and '
+              'with a freshly built graph of the same shape; sampled evidence, not proof',
+   technique='deterministic simulation: seeded __bases__ reassignment histories + gc/drop/permute faults vs reachability model and fresh twin graph',
+   design_ref='DESIGN.md 3/C02', expected_probes=['fresh-twin', 'rebase-I', 'rebase-impl', 'rebase-prov', 'rebase-decl', 'dependent-dropped'])
+
+_p('C03', 'exploration',
+   [Part('graph', {'props': ['C03']}, configs=GRAPH_CFG, quick=24000, thorough=900000, name='graph/C03'),
+    Part('graph', {'props': ['C03']}, configs=[(C_STRICT, 1), (PY_STRICT, 1)], quick=6000, thorough=200000, name='graph/C03/strict'),
+    Part('graph', {'props': ['C03']}, configs=[(C_LEGACY, 1), (PY_LEGACY, 1)], quick=4000, thorough=100000, name='graph/C03/legacy')],
+   rule='one case = one seeded rebasing history; after every op every __sro__/__iro__ is checked for validity and against CPython\'s '
+        'type.mro() of a mirrored class hierarchy (C3 oracle), ro.ro(strict=True) and ro.is_consistent against "CPython can build the '
+        'mirror"; run under default, ZOPE_INTERFACE_STRICT_IRO=1 and ZOPE_INTERFACE_USE_LEGACY_IRO=1 worker configurations; '
+        'distinct_nontrivial = distinct (node kind, consistent?, |sro|, base-count profile) states',
+   assumptions=['ro(strict=True)/is_consistent are compared with the mirror only for interfaces (Interface is then a common root, so '
+                'literal C3 and C3-with-Interface-forced-last coincide); for mixed declaration graphs only validity and equality with the '
+                'forced-last mirror are demanded', 'legacy mode: validity only', REAL_STUB],
+   level_text='seeded search over rebasing histories and the three IRO process configurations; the cached resolution orders, which are '
+              'a function of the propagation schedule, are compared after every step with an external C3 oracle (CPython type.mro()); '
+              'sampled evidence, not proof',
+   technique='deterministic simulation: seeded rebasing histories x strict/legacy/default configurations vs CPython type.mro() mirror oracle',
+   design_ref='DESIGN.md 3/C03', expected_probes=['inconsistent-node', 'rebased-twice'])
+
+_p('C15', 'exploration',
+   [Part('graph', {'props': ['C15'], 'ifaces_only': True}, configs=[(C, 3), (PY, 3), (C_H1, 1), (PY_H7, 1)], quick=24000, thorough=900000,
+         name='graph/C15')],
+   rule='one case = one seeded history of rebasings interleaved with single accessor calls in PRNG order (memo warm-up) over an '
+        'interface DAG in which several ancestors define the same names, tags and invariants; after every op all accessors of all '
+        'interfaces are compared with "first definer along the current __iro__"; distinct_nontrivial = distinct (|iro|, name -> definer) tables',
+   assumptions=['"first definer" is computed along the real current __iro__ (whose correctness is C03), from the model\'s direct tables',
+                REAL_STUB],
+   level_text='seeded search over rebasing histories interleaved with accessor calls (per-interface attribute memo warmed in PRNG order); '
+              'all accessors are checked against each other and against the first definer along the current resolution order after '
+              'every step; sampled evidence, not proof',
+   technique='deterministic simulation: seeded rebasing + accessor warm-up histories vs first-definer-along-iro model',
+   design_ref='DESIGN.md 3/C15', expected_probes=['accessor-0', 'accessor-5', 'rebased-twice'])
